@@ -1,34 +1,22 @@
 //! Common runner for the catalog engines (E1 sweeps and E2 history searches).
 
 use harness::report::{self, Args, PropAcc, Report};
-use harness::{Node, Visitor};
+use harness::ShapeDyn;
 use std::collections::BTreeMap;
 use std::sync::atomic::{AtomicUsize, Ordering};
-use std::sync::Arc;
 
 pub type Accs = BTreeMap<&'static str, PropAcc>;
 
 pub trait Engine: Sync + Send + 'static {
     const NAME: &'static str;
-    fn run<T: Node + ?Sized + 'static>(&self, id: &'static str, args: &Args) -> Accs;
-    /// re-execute one recorded case, print what happens; returns true when the violation reproduces
-    fn replay<T: Node + ?Sized + 'static>(&self, _id: &'static str, _case: &serde_json::Value) -> bool {
+    fn run(&self, s: &dyn ShapeDyn, args: &Args) -> Accs;
+    /// re-execute one recorded case, print what happens; returns true when a violation reproduces
+    fn replay(&self, _s: &dyn ShapeDyn, _case: &serde_json::Value) -> bool {
         false
     }
-}
-
-type JobFn = Box<dyn Fn(&Args) -> Accs + Send + Sync>;
-type ReplayFn = Box<dyn Fn(&serde_json::Value) -> bool + Send + Sync>;
-
-struct Collector<E: Engine> {
-    e: Arc<E>,
-    jobs: Vec<(&'static str, JobFn, ReplayFn)>,
-}
-impl<E: Engine> Visitor for Collector<E> {
-    fn visit<T: Node + ?Sized + 'static>(&mut self, id: &'static str) {
-        let e = self.e.clone();
-        let e2 = self.e.clone();
-        self.jobs.push((id, Box::new(move |a| e.run::<T>(id, a)), Box::new(move |c| e2.replay::<T>(id, c))));
+    /// cost hint for load balancing (bigger first)
+    fn cost(&self, _s: &dyn ShapeDyn) -> usize {
+        1
     }
 }
 
@@ -36,24 +24,32 @@ pub fn acc<'a>(m: &'a mut Accs, p: &'static str) -> &'a mut PropAcc {
     m.entry(p).or_default()
 }
 
+pub fn all_shapes(thorough: bool) -> Vec<Box<dyn ShapeDyn>> {
+    let mut v = shapes::quick_shapes();
+    if thorough {
+        v.extend(shapes::thorough_extra_shapes());
+    }
+    v
+}
+
 pub fn run_engine<E: Engine>(e: E) -> ! {
     let args = report::parse_args();
     assert!(cfg!(target_endian = "little") && core::mem::size_of::<usize>() == 8, "host assumptions");
     report::install(if args.replay.is_some() { 0 } else { 20 });
-    let mut c = Collector { e: Arc::new(e), jobs: vec![] };
-    shapes::visit_quick(&mut c);
-    if args.thorough() || args.replay.is_some() {
-        shapes::visit_thorough_extra(&mut c);
+    if args.thorough() && !shapes::HAS_THOROUGH {
+        eprintln!("MACHINERY: thorough tier needs the engines built with --features thorough");
+        std::process::exit(2);
     }
+    let mut shapes = all_shapes(args.thorough() || (args.replay.is_some() && shapes::HAS_THOROUGH));
     if let Some(path) = &args.replay {
         let txt = std::fs::read_to_string(path).expect("read replay file");
         let j: serde_json::Value = serde_json::from_str(&txt).expect("replay json");
         let case = if j.get("replay").is_some() { j["replay"].clone() } else { j.clone() };
         let shape = case["shape"].as_str().expect("replay.shape").to_string();
-        for (id, _, rf) in &c.jobs {
-            if *id == shape {
-                let a = rf(&case);
-                let b = rf(&case);
+        for s in &shapes {
+            if s.id() == shape {
+                let a = e.replay(s.as_ref(), &case);
+                let b = e.replay(s.as_ref(), &case);
                 println!("replay: reproduced={} (second run: {})", a, b);
                 if a != b {
                     println!("replay: NON-DETERMINISTIC");
@@ -62,16 +58,18 @@ pub fn run_engine<E: Engine>(e: E) -> ! {
                 std::process::exit(if a { 1 } else { 0 });
             }
         }
-        println!("replay: unknown shape {}", shape);
+        println!("replay: unknown shape {} (thorough-only shapes need the thorough build)", shape);
         std::process::exit(2);
     }
     if let Some(o) = &args.only {
-        c.jobs.retain(|(id, _, _)| id.contains(o.as_str()));
+        shapes.retain(|s| s.id().contains(o.as_str()));
     }
+    shapes.sort_by_key(|s| std::cmp::Reverse(e.cost(s.as_ref())));
     let rep = Report::new(E::NAME, &args.tier);
     let next = AtomicUsize::new(0);
-    let jobs = &c.jobs;
+    let jobs = &shapes;
     let n_threads = args.threads.max(1).min(jobs.len().max(1));
+    let e = &e;
     std::thread::scope(|s| {
         for _ in 0..n_threads {
             s.spawn(|| loop {
@@ -80,8 +78,7 @@ pub fn run_engine<E: Engine>(e: E) -> ! {
                     report::journal_idle();
                     break;
                 }
-                let (_, f, _) = &jobs[i];
-                let accs = f(&args);
+                let accs = e.run(jobs[i].as_ref(), &args);
                 report::journal_idle();
                 for (p, a) in accs {
                     rep.merge(p, a);
@@ -90,8 +87,6 @@ pub fn run_engine<E: Engine>(e: E) -> ! {
         }
     });
     rep.set_meta("shapes", serde_json::json!(jobs.len()));
-    rep.set_meta("catalog_quick", serde_json::json!(shapes::N_QUICK));
-    rep.set_meta("catalog_thorough", serde_json::json!(shapes::N_THOROUGH));
     rep.write(&args.out);
     let j = rep.to_json();
     let mut nv = 0;
@@ -99,7 +94,7 @@ pub fn run_engine<E: Engine>(e: E) -> ! {
         let k = v["violations"].as_array().unwrap().len();
         nv += k;
         println!("engine={} prop={} evaluations={} distinct={} violation_classes={}", E::NAME, p, v["evaluations"], v["distinct_nontrivial"], k);
-        for x in v["violations"].as_array().unwrap().iter().take(40) {
+        for x in v["violations"].as_array().unwrap().iter().take(60) {
             println!("  VCLASS {} x{} :: {}", x["key"].as_str().unwrap(), x["count"], x["detail"].as_str().unwrap());
         }
     }
